@@ -492,6 +492,17 @@ func buildVal(x *sexp) (interface{}, error) {
 			return nil, errors.New("not a canonical integer")
 		}
 		return b, nil
+	case "strkeep":
+		s, ok := hexBytes(a)
+		if !ok {
+			return nil, errors.New("bad string")
+		}
+		if keptPtr == nil {
+			keptPtr = &ptrStringer{}
+		}
+		keptPtr.s = s
+		keptPtrUsed = true
+		return keptPtr, nil
 	case "strtm":
 		s, ok := hexBytes(a)
 		if !ok {
@@ -1150,7 +1161,12 @@ func doSyntax(id, text string) (out string) {
 	return s
 }
 
+// ONE pointer-typed Stringer per history whose text the caller changes between calls (atom strkeep)
+var keptPtr *ptrStringer
+var keptPtrUsed bool
+
 func doHist(id, rule string, ops *sexp) string {
+	keptPtr, keptPtrUsed = nil, false
 	ev, err := parser.NewEvaluator(rule)
 	if err != nil || ev == nil {
 		return id + " out=NEWERR"
@@ -1172,7 +1188,8 @@ func doHist(id, rule string, ops *sexp) string {
 		return e.Error()
 	}
 	keep := func(e error) {
-		if e != nil && len(kept) < 64 {
+		// (a value of the caller that the caller itself changes later makes the text of an old diagnostic change with it: not kept)
+		if e != nil && len(kept) < 64 && !keptPtrUsed {
 			kept = append(kept, keptErr{e, errText(e)})
 		}
 	}
